@@ -6251,3 +6251,56 @@ def c16_credit_writers(env):
 
 REGISTRY.setdefault("C08", []).append(c08_credit_writers)
 REGISTRY.setdefault("C16", []).append(c16_credit_writers)
+
+
+# ---- C08: a delivery costs one credit however many frames carry it ---------------------------------------------
+
+
+def c08_one_credit_per_delivery(env):
+    o = Obligation("c08_a_delivery_costs_one_credit_however_many_frames_carry_it", "C08")
+    o.desc = "the sender's path of one delivery: SenderLink::send_payload takes the credit exactly once (get_delivery_tag_or_detached: consume(1)) before the transfer is built, and nothing downstream of it -- send_payload_with_transfer, the link-level splitter send_transfer_without_modifying_unsettled_map that cuts a large message into several transfers, send_transfer -- consumes credit again: a delivery of N frames costs one credit and advances delivery-count by one"
+    pat_consume = r"as (util::)?Consume>::consume$|(^|::)consume_link_credit$|::try_consume$"
+    down = [
+        r"^sender_link::<impl at [^>]*>::send_payload_with_transfer::\{closure#0\}$",
+        r"^sender_link::<impl at [^>]*>::send_transfer_without_modifying_unsettled_map::\{closure#0\}$",
+        r"^((link::)?sender_link::)?send_transfer::\{closure#0\}$",
+    ]
+
+    def replay(m):
+        cmds = ["scn link_split 3 1", "scn link_split 4 2"]
+        return cmds, (lambda outs: any(js.get("panic") or not js["received_intact"] for js in outs))
+
+    fns = []
+    for pat in down:
+        fn = env.fn(pat)
+        fns.append(fn.name)
+        cs = [c for c in mir.callees(fn) if re.search(pat_consume, c)]
+        o.prove(f"{_short_callee(fn.name)}:takes-no-credit", [], z3.BoolVal(not cs), replay=replay)
+    fn = env.fn(r"^sender_link::<impl at [^>]*>::send_payload::\{closure#0\}$")
+    fns.append(fn.name)
+    states = _coroutine_states(fn)
+    n = 0
+    for k in states:
+        ex, paths = _run_from_state(env, fn, k, max_visits=2, stop=None)
+        for i, p in enumerate(paths):
+            names = [c[0] for c in p.calls]
+            takes = [j for j, c in enumerate(names) if re.search(r"::get_delivery_tag_or_detached::<", c) and "poll" not in c]
+            direct = [j for j, c in enumerate(names) if re.search(pat_consume, c)]
+            sends = [j for j, c in enumerate(names) if re.search(r"::send_payload_with_transfer$|::send_payload_with_transfer::<", c) and "poll" not in c]
+            H = ex.assumptions + p.cond
+            o.prove(f"state{k}:path{i}:credit-is-taken-through-the-one-gate", H, z3.BoolVal(not direct and len(takes) <= 1), replay=replay)
+            if k == 0 and sends:
+                n += 1
+                o.prove(f"state{k}:path{i}:taken-once-before-the-transfer-goes-out", H, z3.BoolVal(len(takes) == 1 and takes[0] < sends[0]), replay=replay)
+            elif sends:
+                n += 1
+                # resumed after the await of the gate: the gate is not entered again
+                o.prove(f"state{k}:path{i}:not-taken-again-after-the-gate", H, z3.BoolVal(len(takes) == 0), replay=replay)
+    o.functions = fns
+    o.bounds = [f"send_payload from every resume state {states} through one poll; the three downstream coroutines by their call lists"]
+    o.assumes = ["get_delivery_tag_or_detached takes exactly one credit (consume(1): C08's Kani harness and c08_lost_wakeup)"]
+    o.cover("paths that hand the transfer on", [z3.BoolVal(n > 0)])
+    return [o]
+
+
+REGISTRY.setdefault("C08", []).append(c08_one_credit_per_delivery)
